@@ -14,7 +14,9 @@ import (
 	rb39 "verifharness/ref/bip39"
 )
 
-func init() { core.Register(core.Check{ID: "C09", Level: "exploration", Run: runC09}) }
+func init() {
+	core.Register(core.Check{ID: "C09", Level: "exploration", Run: func(c *core.Ctx) { runC09(c); reentrancyPass(c, "C09") }})
+}
 
 func runC09(c *core.Ctx) {
 	th := c.Thorough()
